@@ -25,7 +25,8 @@ PROP = "C05"
 LEVEL = "exploration"
 WIDTHS = [1, 2, 3, 4, 7, 8]
 # "view" / "viewvar": the target is a typed view (.signed / .unsigned / .bitvector) of a signal / variable whose own type differs
-FORMS = ["assign", "next", "var", "value", "push", "pushattr", "slice", "element", "ite", "ret", "port", "view", "viewvar", "itefull", "itenull", "retfull", "retnull", "always"]
+FORMS = ["assign", "next", "var", "value", "push", "pushattr", "slice", "element", "ite", "ret", "port", "view", "viewvar", "itefull", "itenull", "retfull", "retnull", "always", "declvar", "declsig", "decltmp"]
+DECL = {"declvar": "Variable", "declsig": "Signal", "decltmp": "cohdl.Temporary"}  # an object declared INSIDE the process with the source as its initial value
 MERGE_LIT = {"itefull": "Full", "itenull": "Null", "retfull": "Full", "retnull": "Null"}  # the other branch of the merge is a literal
 VIEW_ROOT = {"S": "U", "U": "S", "BV": "U"}
 VIEW_ATTR = {"S": "signed", "U": "unsigned", "BV": "bitvector"}
@@ -69,7 +70,7 @@ def cases():
         if s[0] == "Bit":
             continue
         for t in T:
-            for f in ("assign", "next", "var", "ite", "ret", "itefull", "element", "always"):
+            for f in ("assign", "next", "var", "ite", "ret", "itefull", "element", "always", "declvar", "declsig"):
                 out.append({"src": list(s), "tgt": list(t), "form": f, "sform": "temp"})
             # ... and an operator result read through a typed view (the view's type decides the conversion)
             for f in ("assign", "next", "always"):
@@ -211,6 +212,8 @@ def render_src(c):
     elif f == "always":
         # the assignment is hoisted out of the process with cohdl.always (its temporaries become signals)
         B = [clk, "def p():", "    with cohdl.always:", f"        self.o <<= {src}"]
+    elif f in DECL:
+        B = [clk, "def p():"] + pre + [f"    x = {DECL[f]}[{tstr(t)}]({src})", "    self.o <<= x"]
     elif f == "var":
         B = [f"v = Variable[{tstr(t)}](Null)", clk, "def p():", "    nonlocal v"] + pre + [f"    v @= {src}", "    self.o <<= v"]
     elif f == "value":
